@@ -64,6 +64,19 @@ def run(ctx):
             if res["module"][0] == "ok":
                 ctx.sample({"program": res["text"][:800], "module": res["module"][0], "component": res["component"][0]})
                 break
+        # programs with a `model` declaration (member predicates with 0-3 columns, morphisms): both build modes + rustc
+        mem = modes.run_member_programs(ctx, 8 if quick else 80, tag="c09mem")
+        for r in mem:
+            for mode in ("module", "component"):
+                st, log = r[mode]
+                counts["member-%s:%s" % (mode, st)] = counts.get("member-%s:%s" % (mode, st), 0) + 1
+                ctx.count("prog", ("mem", r["idx"], mode) if st == "ok" else None, st == "ok")
+                if st in ("compiler_panic", "rustc_failed", "run_failed"):
+                    ctx.violation({"kind": "program", "program": r["text"], "mode": mode, "log": log},
+                                  "%s for an accepted program with a model declaration (%s build)" % (
+                                      {"compiler_panic": "the compiler panicked", "rustc_failed": "rustc rejected the generated code",
+                                       "run_failed": "the linked program crashed in close()"}[st], mode))
+        ctx.cov["outcomes"] = counts
         if ok and comp_dirs:
             summ = ram_obligations.ram_obligations(ctx, comp_dirs, pid_for_violation=None, texts=texts, build=False, tag="c09")
             ctx.cov["rule_functions"] = summ
